@@ -1058,7 +1058,12 @@ class _Simu(_IObserver, _params.Updatable, ABC):
         else:
             csr_data = np.bincount(inv, weights=data, minlength=nnz)
 
-        matrix = sparse.csr_matrix((csr_data, indices, indptr), shape=shape)
+        # The pattern arrays belong to the cache and are shared by every assembly of this key: the returned
+        # matrix gets its own copies, so an in-place structural edit by the caller (e.g. `eliminate_zeros`)
+        # can neither reach the cached pattern nor the other matrices built from it.
+        matrix = sparse.csr_matrix(
+            (csr_data, indices.copy(), indptr.copy()), shape=shape
+        )
         # Canonical by construction (scipy sorted the pattern): lets Solvers skip its canonical fixup.
         matrix.has_canonical_format = True
         return matrix
